@@ -97,18 +97,84 @@ sexp kit_alloc_tagged(size_t bytes, sexp_uint_t tag) {
 #ifndef KIT_REAL_GC
 /* the only caller of the bare allocator in the tree is sexp_make_bytes_op (via sexp_alloc_atomic):
    give it the byte-exact bytes layout; anything else falls back to generic words */
-void *sexp_alloc(sexp ctx, size_t size) {
-#ifndef KIT_NATIVE
-  void *res = kit_typed_object(size, SEXP_BYTES);
-  if (res) return res;
+#ifdef KIT_GC_MODEL
+void kit_gc_point(sexp ctx); void kit_gc_track(sexp x);
 #endif
-  return kit_alloc_words(size);
+void *sexp_alloc(sexp ctx, size_t size) {
+  void *res = 0;
+#ifdef KIT_GC_MODEL
+  kit_gc_point(ctx);
+#endif
+#ifndef KIT_NATIVE
+  res = kit_typed_object(size, SEXP_BYTES);
+#endif
+  if (!res) res = kit_alloc_words(size);
+#ifdef KIT_GC_MODEL
+  kit_gc_track((sexp)res);
+#endif
+  return res;
 }
+#endif
+
+#ifdef KIT_GC_MODEL
+/* C02(B): "a collection may happen at every allocation".  Sound under-approximation of the real collector:
+   at each allocation point pick one tracked live object nondeterministically and free() it iff nothing
+   can reach it in one step - no registered root (every *saves->var of the context, every harness root)
+   and no slot of another live tracked object (slots per the real type-layout row) holds it.  An object
+   with in-degree 0 is certainly unreachable, so nothing the real collector keeps is ever freed; an object
+   held only in an unregistered C local has in-degree 0 exactly when it matters, and any later use is a
+   "deallocated dynamic object" failure.  Which object and whether to collect are free at every
+   allocation: the collection schedule is a symbolic variable. */
+#ifndef KIT_GC_MAX
+#define KIT_GC_MAX 10
+#endif
+sexp kit_gc_obj[KIT_GC_MAX]; _Bool kit_gc_dead[KIT_GC_MAX]; int kit_gc_n, kit_gc_collections;
+sexp kit_gc_roots[8]; int kit_gc_nroots;
+void kit_gc_root(sexp x) { kit_gc_roots[kit_gc_nroots++] = x; }
+void kit_gc_track(sexp x) {
+  __CPROVER_assert(kit_gc_n < KIT_GC_MAX, "PROP number of allocations within the harness bound KIT_GC_MAX");
+  __CPROVER_assume(kit_gc_n < KIT_GC_MAX);
+  kit_gc_obj[kit_gc_n] = x; kit_gc_dead[kit_gc_n] = 0; kit_gc_n++;
+}
+static _Bool kit_gc_referenced(sexp ctx, int v) {
+  sexp x = kit_gc_obj[v];
+  for (int r = 0; r < kit_gc_nroots; r++) if (kit_gc_roots[r] == x) return 1;
+  struct sexp_gc_var_t *s = sexp_context_saves(ctx);
+  for (int k = 0; k < 12; k++) { if (!s) break; if (s->var && *(s->var) == x) return 1; s = s->next; }
+  for (int w = 0; w < kit_gc_n; w++) {
+    if (w == v || kit_gc_dead[w]) continue;
+    sexp o = kit_gc_obj[w];
+    sexp t = sexp_object_type(ctx, o);
+    sexp_sint_t ns = sexp_type_num_slots_of_object(t, o);
+    sexp *p = (sexp *)((char *)o + sexp_type_field_base(t));
+    for (sexp_sint_t k = 0; k < 6; k++) { if (k >= ns) break; if (p[k] == x) return 1; }
+  }
+  return 0;
+}
+void kit_gc_point(sexp ctx) {
+  if (kit_gc_n == 0 || !nondet_bool()) return;
+  int v = nondet_int();
+  __CPROVER_assume(v >= 0 && v < kit_gc_n);
+  if (kit_gc_dead[v]) return;
+  if (kit_gc_referenced(ctx, v)) return;
+  kit_gc_dead[v] = 1; kit_gc_collections++;
+#ifndef KIT_NATIVE
+  free(kit_gc_obj[v]);
+#else
+  free(kit_gc_obj[v]);
+#endif
+}
+#define KIT_GC_POINT(ctx) kit_gc_point(ctx)
+#define KIT_GC_TRACK(x) kit_gc_track(x)
+#else
+#define KIT_GC_POINT(ctx)
+#define KIT_GC_TRACK(x)
 #endif
 
 /* the five-line tag-setting wrapper of sexp.c; modelled here in every harness so that the payload
    flavour can follow the tag (the real body is removed with goto-instrument when sexp.c is linked) */
 sexp sexp_alloc_tagged_aux(sexp ctx, size_t size, sexp_uint_t tag) {
+  KIT_GC_POINT(ctx);
 #ifdef KIT_NATIVE
   sexp res = (sexp) calloc(size ? size : 1, 1);
 #else
@@ -116,6 +182,7 @@ sexp sexp_alloc_tagged_aux(sexp ctx, size_t size, sexp_uint_t tag) {
   if (!res) res = (sexp) kit_alloc_words2(size, kit_numeric_tag(tag));
 #endif
   sexp_pointer_tag(res) = tag;
+  KIT_GC_TRACK(res);
   return res;
 }
 #ifndef KIT_REAL_SEXP
